@@ -536,6 +536,24 @@ func (r *kvRun) doBatch(rows []kvRow, why string) bool {
 					r.info("full_although_room_" + s.name)
 				}
 			}
+			// not part of C06 (the error is reported), but a lead for the runner, which
+			// treats a failed forward pass as fatal: "full" although the caller stayed
+			// within what it declared to Init (sequences, per-sequence capacity, batch size)
+			within := len(rows) <= c.maxBatch
+			per := map[int]int{}
+			for _, row := range rows {
+				per[row.seq]++
+			}
+			for s, n := range per {
+				within = within && len(r.ref[s])+n <= c.capacity
+			}
+			for s := range r.ref {
+				within = within && len(r.ref[s]) <= c.capacity
+			}
+			if within {
+				r.info("full_within_declared_limits_" + kvKindNames[c.kind])
+				r.note("  (the caller was within the limits given to Init)")
+			}
 		case maskFailed:
 			r.fault("mask_upload_error")
 			r.note("  -> %v; clearing the batch's sequences", err)
